@@ -7,9 +7,10 @@ package main
 // Keys must flatten to a single leaf.
 
 import (
-	"strings"
 	"fmt"
+	"go/token"
 	"go/types"
+	"strings"
 
 	"golang.org/x/tools/go/ssa"
 )
@@ -20,6 +21,13 @@ type mapInfo struct {
 	vsorts []string
 	vnames []string
 	kt, vt types.Type
+}
+
+// mapHeapKey: the heap family of a map is that of its underlying map type, so
+// that a conversion between a named map type and its underlying type (or
+// between two named types) keeps referring to the same modelled object.
+func mapHeapKey(t types.Type) string {
+	return "M_" + typeKey(under(t))
 }
 
 func (x *Exec) mapInfo(t types.Type) *mapInfo {
@@ -36,10 +44,10 @@ func (x *Exec) mapInfo(t types.Type) *mapInfo {
 		}
 		ks = []string{sInt}
 	}
-	return &mapInfo{key: "M_" + typeKey(t), ksort: ks[0], vsorts: leafSorts(mt.Elem()), vnames: leafNames(mt.Elem()), kt: mt.Key(), vt: mt.Elem()}
+	return &mapInfo{key: mapHeapKey(t), ksort: ks[0], vsorts: leafSorts(mt.Elem()), vnames: leafNames(mt.Elem()), kt: mt.Key(), vt: mt.Elem()}
 }
 
-func (mi *mapInfo) hasSort() string  { return arrSort("(Array " + mi.ksort + " Bool)") }
+func (mi *mapInfo) hasSort() string { return arrSort("(Array " + mi.ksort + " Bool)") }
 func (mi *mapInfo) valSort(j int) string {
 	return arrSort("(Array " + mi.ksort + " " + mi.vsorts[j] + ")")
 }
@@ -203,6 +211,7 @@ func (fr *Frame) execMapUpdate(st *State, in *ssa.MapUpdate) {
 	v := fr.val(st, in.Value)
 	x.obligeAssume(st, "nil", "map write "+x.w.nodeTextAt(in.Pos()), in.Pos(), tNot(tEq(m.L[0], "0")), nil, true)
 	mi := x.mapInfo(in.Map.Type())
+	fr.mapFrameCheck(st, m, mi, in.Pos())
 	if isIface(mi.kt) && !isIface(k.Ty) {
 		k = x.makeIface(st, k, mi.kt)
 	}
@@ -224,9 +233,32 @@ func (fr *Frame) execMapUpdate(st *State, in *ssa.MapUpdate) {
 	}
 }
 
-func (fr *Frame) mapDelete(st *State, m, k *Val) {
+// mapFrameCheck: like frameCheck, for map writes (m[k] = v, delete): a function
+// under contract may only write maps of a family its assigns clause names (at
+// the rows it names, if any) or maps it allocated itself. Without this a
+// callee that updates a map its assigns clause does not cover would leave the
+// caller's view of the map unchanged.
+func (fr *Frame) mapFrameCheck(st *State, m *Val, mi *mapInfo, pos token.Pos) {
+	x := fr.x
+	top := x.top
+	if top == nil || top.contract == nil || x.noObl > 0 {
+		return
+	}
+	ok, rows := x.frameAllow(mi.key + "_has")
+	if ok {
+		return
+	}
+	goal := tCmp(">", m.L[0], top.entry.allocTop)
+	for _, r := range rows {
+		goal = tOr(goal, tEq(m.L[0], r))
+	}
+	x.oblige(st, "frame", "write "+mi.key, pos, goal, nil, false)
+}
+
+func (fr *Frame) mapDelete(st *State, m, k *Val, pos token.Pos) {
 	x := fr.x
 	mi := x.mapInfo(m.Ty)
+	fr.mapFrameCheck(st, m, mi, pos)
 	kk := x.mapKey(st, m.Ty, k)
 	had := tAnd(tNot(tEq(m.L[0], "0")), x.mapHas(st, m, kk))
 	hn := mi.key + "_has"
